@@ -10,6 +10,7 @@ pub fn run(scn: &Value) -> Value {
     match scn["what"].as_str().unwrap_or("") {
         "expire" => expire(scn),
         "storage_calls" => storage_calls(scn),
+        "task_readers" => task_readers(scn),
         other => json!({"error": format!("unknown model scenario {other}")}),
     }
 }
@@ -198,3 +199,82 @@ pub fn storage_calls(scn: &Value) -> Value {
 }
 
 static NEXT: std::sync::atomic::AtomicUsize = std::sync::atomic::AtomicUsize::new(0);
+
+// ----------------------------------------------------------------------------- task readers (C18)
+
+fn catch<F: FnOnce() + std::panic::UnwindSafe>(name: &str, panics: &mut Vec<Value>, f: F) {
+    if let Err(e) = std::panic::catch_unwind(f) {
+        let msg = if let Some(s) = e.downcast_ref::<String>() {
+            s.clone()
+        } else if let Some(s) = e.downcast_ref::<&str>() {
+            s.to_string()
+        } else {
+            "panic".to_string()
+        };
+        panics.push(json!({"reader": name, "msg": msg}));
+    }
+}
+
+pub fn task_readers(scn: &Value) -> Value {
+    use std::panic::AssertUnwindSafe;
+    let mut rep = Replica::new(InMemoryStorage::new());
+    let a = uuid_of(100);
+    let b = uuid_of(200);
+    let mut ops = Operations::new();
+    ops.push(Operation::Create { uuid: a });
+    if let Some(o) = scn["task"].as_object() {
+        for (k, v) in o {
+            ops.push(Operation::Update {
+                uuid: a,
+                property: k.clone(),
+                old_value: None,
+                value: Some(v.as_str().unwrap_or("").to_string()),
+                timestamp: ts_of(&json!(0)),
+            });
+        }
+    }
+    ops.push(Operation::Create { uuid: b });
+    for (k, v) in [("status", "pending"), ("description", "other")] {
+        ops.push(Operation::Update { uuid: b, property: k.into(), old_value: None, value: Some(v.into()), timestamp: ts_of(&json!(0)) });
+    }
+    block_on(rep.commit_operations(ops)).expect("commit");
+    let mut panics = Vec::new();
+    let task = match std::panic::catch_unwind(AssertUnwindSafe(|| block_on(rep.get_task(a)))) {
+        Ok(Ok(Some(t))) => t,
+        Ok(other) => return json!({"error": format!("get_task: {:?}", other.map(|o| o.is_some()))}),
+        Err(_) => return json!({"panics": [{"reader": "Replica::get_task", "msg": "panic"}]}),
+    };
+    catch("Replica::all_tasks", &mut panics, AssertUnwindSafe(|| { let _ = block_on(rep.all_tasks()); }));
+    catch("Replica::pending_tasks", &mut panics, AssertUnwindSafe(|| { let _ = block_on(rep.pending_tasks()); }));
+    catch("Replica::dependency_map", &mut panics, AssertUnwindSafe(|| { let _ = block_on(rep.dependency_map(true)); }));
+    catch("Replica::working_set", &mut panics, AssertUnwindSafe(|| { let _ = block_on(rep.working_set()); }));
+    let t = &task;
+    catch("Task::get_status", &mut panics, AssertUnwindSafe(|| { let _ = t.get_status(); }));
+    catch("Task::get_description", &mut panics, AssertUnwindSafe(|| { let _ = t.get_description(); }));
+    catch("Task::get_entry", &mut panics, AssertUnwindSafe(|| { let _ = t.get_entry(); }));
+    catch("Task::get_priority", &mut panics, AssertUnwindSafe(|| { let _ = t.get_priority(); }));
+    catch("Task::get_wait", &mut panics, AssertUnwindSafe(|| { let _ = t.get_wait(); }));
+    catch("Task::is_waiting", &mut panics, AssertUnwindSafe(|| { let _ = t.is_waiting(); }));
+    catch("Task::is_active", &mut panics, AssertUnwindSafe(|| { let _ = t.is_active(); }));
+    catch("Task::is_blocked", &mut panics, AssertUnwindSafe(|| { let _ = t.is_blocked(); }));
+    catch("Task::is_blocking", &mut panics, AssertUnwindSafe(|| { let _ = t.is_blocking(); }));
+    catch("Task::get_modified", &mut panics, AssertUnwindSafe(|| { let _ = t.get_modified(); }));
+    catch("Task::get_due", &mut panics, AssertUnwindSafe(|| { let _ = t.get_due(); }));
+    catch("Task::get_tags", &mut panics, AssertUnwindSafe(|| {
+        let tags: Vec<_> = t.get_tags().collect();
+        for tg in &tags {
+            let _ = t.has_tag(tg);
+        }
+    }));
+    catch("Task::get_annotations", &mut panics, AssertUnwindSafe(|| { let _ = t.get_annotations().count(); }));
+    #[allow(deprecated)]
+    catch("Task::get_udas", &mut panics, AssertUnwindSafe(|| { let _ = t.get_udas().count(); }));
+    catch("Task::get_user_defined_attributes", &mut panics, AssertUnwindSafe(|| { let _ = t.get_user_defined_attributes().count(); }));
+    catch("Task::get_dependencies", &mut panics, AssertUnwindSafe(|| { let _ = t.get_dependencies().count(); }));
+    for key in ["status", "due", "wait", "entry", "modified", "start", "end", "foo", "ns.key", "tag_abc", ""] {
+        catch("Task::get_value", &mut panics, AssertUnwindSafe(|| { let _ = t.get_value(key); }));
+        catch("Task::get_user_defined_attribute", &mut panics, AssertUnwindSafe(|| { let _ = t.get_user_defined_attribute(key); }));
+        catch("Task::get_timestamp", &mut panics, AssertUnwindSafe(|| { let _ = t.get_timestamp(key); }));
+    }
+    json!({"panics": panics})
+}
